@@ -210,7 +210,8 @@ pub fn run(rep: &mut Report, thorough: bool) {
     let profiles = [Profile::Dev, Profile::Release];
     let quick_subset = |b: &BaseFrame| -> bool {
         // quick: one frame per leaf kind (IPv4 + the IPv6-only leaves)
-        !b.name.ends_with("-v6") || b.name.starts_with("echo") || b.name.contains("stun-magic-attrs") || b.name.contains("tcp-http-get")
+        // (the multi-question DNS queries are the same leaf as dns-a, a kilobyte long: thorough tier)
+        (!b.name.ends_with("-v6") || b.name.starts_with("echo") || b.name.contains("stun-magic-attrs") || b.name.contains("tcp-http-get")) && !b.name.contains("dns-a-x")
     };
     let sp_tl = if thorough { build_space(base.clone(), &["TL"], 0, None) } else { build_space(base.clone(), &["TL"], 0, Some(&quick_subset)) };
     // quick tier: the field-value class runs under the levels off and trace of every (lists, logger)
